@@ -40,7 +40,8 @@ pub struct Opts {
 impl Opts {
     /// n for quick, m for thorough, scaled.
     pub fn n(&self, quick: u64, thorough: u64) -> u64 {
-        let v = if self.tier == Tier::Quick { quick } else { thorough };
+        // quick sizes in the monitors were calibrated for ~1 s; 8x keeps every quick check within ~10-40 s
+        let v = if self.tier == Tier::Quick { quick.saturating_mul(8).min(thorough.max(quick)) } else { thorough };
         ((v as u128 * self.scale_pct as u128 / 100) as u64).max(1)
     }
     pub fn is_thorough(&self) -> bool {
